@@ -49,8 +49,14 @@ def r1(R, repo):
   else:
     R.unsure(key, rg, 'register_variable_name must raise when the name is already mapped and overwrite is false')
   vn = mod.func('variable_name_from_type')
-  R.check('if typ == t' in astu.src(vn.node) and 'register_variable_name(name, typ)' in astu.src(vn.node), key_of(vn, 'exact type match, else register under the class name'), vn,
-          'variable_name_from_type must look the type up by equality (not isinstance) and otherwise register it under its class name')
+  tpar = astu.params(vn.node)[0]
+  loose = [x for lp_ in astu.body_walk(vn.node) if isinstance(lp_, ast.For) for t_ in ast.walk(lp_) if isinstance(t_, ast.If) for x in ast.walk(t_.test)
+           if isinstance(x, ast.Call) and astu.call_name(x) in ('issubclass', 'isinstance') and x.args and astu.src(x.args[0]) == tpar]
+  if loose:
+    R.fail(key_of(vn, 'exact type match, else register under the class name'), (vn, loose[0]), '`%s` maps a Variable subclass to the name of the first registered base class: ToLinen then files e.g. a LoRAParam under `params` (and a Perturbation under `intermediates`) instead of under its own collection, so the Linen variable tree no longer mirrors the NNX state' % astu.short(loose[0]))
+  else:
+    R.check('if typ == t' in astu.src(vn.node) and 'register_variable_name(name, typ)' in astu.src(vn.node), key_of(vn, 'exact type match, else register under the class name'), vn,
+            'variable_name_from_type must look the type up by equality (not isinstance) and otherwise register it under its class name')
   # the bridge translates collections <-> types only through the registry
   for rel in (BV, BW):
     m = repo.mod(rel)
@@ -142,7 +148,13 @@ def r3(R, repo):
   src = astu.src(rm.node)
   ps = astu.params(rm.node)
   ok = 'flat_map = traversals.flatten_mapping(%s)' % ps[0] in src and 'flat_map |= traversals.flatten_mapping(%s)' % ps[1] in src and 'traversals.unflatten_mapping(flat_map)' in src
-  R.check(ok, key_of(rm, 'flat merge, second argument wins'), rm, '_recursive_merge must merge the flattened mappings with the second argument winning')
+  sd_ = [x for x in astu.func_calls(rm) if astu.call_tail(x) == 'setdefault']
+  first_wins = [x for x in ast.walk(rm.node) if isinstance(x, ast.AugAssign) and isinstance(x.op, ast.BitOr) and ps[0] in astu.names_loaded(x.value) and ps[1] not in astu.names_loaded(x.value)]
+  if (sd_ or first_wins) and not ok:
+    w_ = (sd_ or first_wins)[0]
+    R.fail(key_of(rm, 'flat merge, second argument wins'), (rm, w_), '`%s` keeps the entries of the first mapping: _recursive_merge(stored, update) then lets the *stored* value win, so mutable updates of nested sub-modules (e.g. BatchNorm statistics inside a Linen model wrapped by ToNNX) are dropped' % astu.short(w_))
+  else:
+    R.check(ok, key_of(rm, 'flat merge, second argument wins'), rm, '_recursive_merge must merge the flattened mappings with the second argument winning')
   # init path stores every converted attribute
   ini = [n for n in c.nodes if n.kind == 'if' and astu.src(n.ast) == 'self._object__state.initializing']
   iset = [n for n in c.nodes if n.kind == 'stmt' and isinstance(n.stmt, ast.Expr) and isinstance(n.stmt.value, ast.Call) and astu.call_name(n.stmt.value) == 'setattr' and ini and c.edge_guarded(n, ini[0], 'T')]
